@@ -7,7 +7,7 @@ import OsyrisProofs.Layout
 import OsyrisProofs.Readers
 
 namespace Osyris.C14
-open Osyris Osyris.Readers Osyris.LoadEngine
+open Osyris Osyris.Readers Osyris.LoadEngine Osyris.Loader
 
 /-- a column that is skipped advances the counters exactly like a column that is read:
     the columns after it are found at the same place (row alignment across variables) -/
@@ -31,5 +31,79 @@ theorem C14_zero_particles (vars : List VarItem) : varsBytes 0 vars = 8 * vars.l
   induction vars with
   | nil => rfl
   | cons v vs ih => simp only [varsBytes, List.map_cons, List.sum_cons, List.length_cons] at ih ⊢; rw [ih]; ring
+
+/-! ### accumulation of the rows over the files read -/
+
+
+/-- the rows accumulated so far for a variable (nothing yet = empty) -/
+def rowsOf (p : Pieces) (name : String) : List Rat := ((p.find? (·.1 == name)).map (·.2)).getD []
+
+theorem rowsOf_add_self (p : Pieces) (name : String) (vals : List Rat) :
+    rowsOf (p.add name vals) name = rowsOf p name ++ vals := by
+  unfold Pieces.add rowsOf
+  split
+  · rename_i h
+    induction p with
+    | nil => simp at h
+    | cons e p ih =>
+      simp only [List.map_cons, List.find?_cons]
+      by_cases he : e.1 == name
+      · simp [he]
+      · have hf : (e.1 == name) = false := by simpa using he
+        simp only [hf, Bool.false_eq_true, if_false]
+        apply ih
+        simpa [hf] using h
+  · rename_i h
+    have hnone : p.find? (·.1 == name) = none := by
+      rw [List.find?_eq_none]
+      intro e he hc
+      exact h (List.any_eq_true.mpr ⟨e, he, hc⟩)
+    rw [List.find?_append, hnone]
+    simp
+
+theorem rowsOf_add_other (p : Pieces) (name other : String) (vals : List Rat) (hne : other ≠ name) :
+    rowsOf (p.add name vals) other = rowsOf p other := by
+  unfold Pieces.add rowsOf
+  split
+  · have hfind : ∀ q : Pieces, (q.map (fun e => if e.1 == name then (e.1, e.2 ++ vals) else e)).find? (·.1 == other) =
+        q.find? (·.1 == other) := by
+      intro q
+      induction q with
+      | nil => rfl
+      | cons e q ih =>
+        simp only [List.map_cons, List.find?_cons]
+        by_cases he : e.1 == name
+        · have hen : e.1 = name := by simpa using he
+          have hf : (e.1 == other) = false := by rw [hen]; simpa using fun h => hne h.symm
+          simp only [he, if_true, hf]
+          exact ih
+        · have hf : (e.1 == name) = false := by simpa using he
+          simp only [hf, Bool.false_eq_true, if_false]
+          cases e.1 == other
+          · exact ih
+          · rfl
+    rw [hfind]
+  · rw [List.find?_append]
+    have : (name == other) = false := by simpa using fun h => hne h.symm
+    cases hf : p.find? (·.1 == other) <;> simp [this]
+
+/-- **C14 / C01 (concatenation over the files read)**: adding the rows of one cpu file after the other under one name
+    leaves, for that name, the concatenation of the files' rows in the order the files were read; other variables are
+    not touched -/
+theorem C14_concatenation (name : String) : ∀ (files : List (List Rat)) (p : Pieces),
+    rowsOf (files.foldl (fun acc vals => acc.add name vals) p) name = rowsOf p name ++ files.flatten := by
+  intro files
+  induction files with
+  | nil => intro p; simp
+  | cons f fs ih =>
+    intro p
+    rw [List.foldl_cons, ih, rowsOf_add_self, List.flatten_cons, List.append_assoc]
+
+theorem C14_concatenation_frame (name other : String) (hne : other ≠ name) : ∀ (files : List (List Rat)) (p : Pieces),
+    rowsOf (files.foldl (fun acc vals => acc.add name vals) p) other = rowsOf p other := by
+  intro files
+  induction files with
+  | nil => intro p; rfl
+  | cons f fs ih => intro p; rw [List.foldl_cons, ih, rowsOf_add_other _ _ _ _ hne]
 
 end Osyris.C14
